@@ -8,8 +8,16 @@ VARIABLES cid, done
 Offset(m) == CASE m = "meth" -> 1 [] m = "other" -> 2 [] m = "deco" -> 3 [] m = "tree" -> 5 [] OTHER -> 0
 ExpectedV(c, i) == IF c.method = "prop" THEN -2 ELSE 10 + (i - 1) + Offset(c.method)
 EventsOfCall(c, i) == SelectSeq(c.events, LAMBDA e : e.call = i)
+\* instances strictly below o in the tree, i.e. reached by the recursive calls of o.tree
+Below(o) == Subtree(o) \ {o}
 Verdicts(c) ==
-  IF c.outcome # "ok"
+  IF c.outcome = "ok" /\ c.path = "nested2"
+  THEN \* 'X.tree > Y.tree > v': one event per run of tree on Y that happens underneath a run of tree on X
+       UNION { LET evs == EventsOfCall(c, i)
+                   want == Cardinality({x \in Subtree(c.calls[i]) : x = c.target /\ c.target2 \in Below(x)})
+               IN IF Len(evs) = want THEN {} ELSE {<<"NestedReceivers", IF Len(evs) > want THEN "extra" ELSE "missed">>}
+             : i \in DOMAIN c.calls }
+  ELSE IF c.outcome # "ok"
   THEN {<<"Refused", IF ~MAccepts(c.target) THEN "mech" ELSE c.outcome>>}
   ELSE UNION { LET evs == EventsOfCall(c, i)
                    \* when the method is an inner step of a call path (poll > obj.meth > v) only calls made under poll count
@@ -17,11 +25,13 @@ Verdicts(c) ==
                    \* the recursive method runs once for every instance of the receiver's subtree
                    runs == IF c.method = "tree" THEN Subtree(c.calls[i]) ELSE {c.calls[i]}
                    want == IF under THEN Cardinality({r \in runs : AFires(c.target, r)}) ELSE 0
-                   mwant == IF under THEN Cardinality({r \in runs : MFires(c.target, r)}) ELSE 0
+                   \* mechanism: at #enter the receiver parameter has not been captured yet, the constraint on it is not applied
+                   mwant == IF c.path = "enter" THEN Cardinality(runs)
+                            ELSE IF under THEN Cardinality({r \in runs : MFires(c.target, r)}) ELSE 0
                IN (IF Len(evs) = want THEN {}
                    ELSE {<<IF Len(evs) > want THEN "WrongReceiverObserved" ELSE "ReceiverMissed",
                            IF Len(evs) = mwant THEN "mech" ELSE "other">>}) \cup
-                  (IF \A k \in DOMAIN evs : (c.method = "prop" \/ evs[k].v = ExpectedV(c, i))
+                  (IF c.path = "enter" \/ \A k \in DOMAIN evs : (c.method = "prop" \/ evs[k].v = ExpectedV(c, i))
                                             /\ (c.target \in Classes \/ evs[k].self = (IF c.method = "tree" THEN c.target ELSE c.calls[i]))
                    THEN {} ELSE {<<"EventContent", "">>})
              : i \in DOMAIN c.calls }
